@@ -123,10 +123,14 @@ def impl(op):
     if k in ("thresh", "gthresh"):
         u = None if a[3] == "-" else from_xr(a[3])
         xs = np.array(from_xvec(a[4]), float)
+        before = xs.copy()
         try:
             r = verif.util.apply_threshold(xs, a[1], from_xr(a[2]), u)
         except SystemExit:
             return "ERR"
+        if not np.array_equal(xs, before, equal_nan=True):
+            # the callers loop over thresholds with the same (cached) array: the next event would be taken of 0/1
+            return "MUTATED-INPUT " + xvec(r)
         return xvec(r)
     if k in ("tprob", "gtprob"):
         pu = None if a[3] == "-" else np.array([from_xr(a[3])])
@@ -140,7 +144,11 @@ def impl(op):
         ts = [t, u] if "within" in b else [t]
         ivs = verif.util.get_intervals(b, np.array(ts))
         xs = np.array(from_xvec(a[4]), float)
-        return _chars(ivs[0].within(xs), xs)
+        before = xs.copy()
+        r = _chars(ivs[0].within(xs), before)
+        if not np.array_equal(xs, before, equal_nan=True):
+            return "MUTATED-INPUT " + r
+        return r
     if k == "gintervalBody":
         b, t, u = a[1], from_xr(a[2]), from_xr(a[3])
         ts = [t, u] if "within" in b else [t]
@@ -174,6 +182,10 @@ def judge(op, impl_out, spec_out):
     """The property itself, on the implementation: membership / thresholding of finite and missing
     values must be the documented relation (Spec.event evaluated by the Lean driver)."""
     a = op.split(" ")
+    if impl_out.startswith("MUTATED-INPUT"):
+        return ({"kind": "input-modified", "op": a[0]},
+                "%s %s overwrote the array it was given (%s): the next event evaluated on the same values is taken of "
+                "0/1 flags instead of the data" % (a[0], a[1], a[4][:200]))
     if a[0] == "event" and spec_out and not spec_out.startswith("ERR"):
         for i, (x, y) in enumerate(zip(impl_out, spec_out)):
             if y != "?" and x != y:
